@@ -226,4 +226,71 @@ theorem map_opKey_inj (l1 l2 : List Operand) (hc : ∀ o1 ∈ l1, ∀ o2 ∈ l2,
       have := ih bs (fun o1 h1 o2 h2 => hc o1 (List.mem_cons_of_mem _ h1) o2 (List.mem_cons_of_mem _ h2)) h.2
       rw [hab, this]
 
+/-! ### the label `injected_<Class>_<hash>` -/
+
+/-- splitting a string at the first occurrence of a character is unambiguous -/
+theorem split_first (c : Char) (a b x y : List Char) (ha : c ∉ a) (hb : c ∉ b)
+    (h : a ++ c :: x = b ++ c :: y) : a = b ∧ x = y := by
+  induction a generalizing b with
+  | nil =>
+    cases b with
+    | nil => simp at h; exact ⟨rfl, h⟩
+    | cons b0 bs =>
+      simp at h
+      exact absurd h.1 (by intro e; apply hb; simp [e])
+  | cons a0 as ih =>
+    cases b with
+    | nil =>
+      simp at h
+      exact absurd h.1 (by intro e; apply ha; simp [e])
+    | cons b0 bs =>
+      simp only [List.cons_append, List.cons.injEq] at h
+      have := ih bs (fun m => ha (List.mem_cons_of_mem _ m)) (fun m => hb (List.mem_cons_of_mem _ m)) h.2
+      exact ⟨by rw [h.1, this.1], this.2⟩
+
+/-- the label determines the class and the rendered hash, because class names contain no underscore -/
+theorem label_inj (H : Key → String) (p : Printer) (e1 e2 : Expr)
+    (h1 : '_' ∉ e1.cls.toList) (h2 : '_' ∉ e2.cls.toList) (h : label H p e1 = label H p e2) :
+    e1.cls = e2.cls ∧ H (key p e1) = H (key p e2) := by
+  unfold label at h
+  have h' := congrArg String.toList h
+  simp only [String.toList_append] at h'
+  have h'' : e1.cls.toList ++ '_' :: (H (key p e1)).toList = e2.cls.toList ++ '_' :: (H (key p e2)).toList := by
+    simpa [List.append_assoc] using h'
+  have := split_first '_' _ _ _ _ h1 h2 h''
+  exact ⟨String.toList_inj.mp this.1, String.toList_inj.mp this.2⟩
+
+theorem dispatch_no_underscore : ∀ d : Dunder, '_' ∉ (dispatch d).toList := by
+  intro d; cases d <;> decide
+
+/-! ### slicing -/
+
+theorem getitemSliceRun_ok (H : Key → String) (p : Printer) (f : SliceFn) (st : St) (parent : Option Nat)
+    (owner : Nat) (slabel : String) (a b c : Operand) (chanOf : Nat → Nat) (ready sN bN cN : Bool)
+    (h : sliceRaises f ready sN bN cN = false) :
+    getitemSliceRun H p f st parent owner slabel a b c chanOf ready sN bN cN =
+      ((getitemSlice H p st parent owner slabel a b c chanOf).1,
+       (getitemSlice H p st parent owner slabel a b c chanOf).2.1,
+       some (getitemSlice H p st parent owner slabel a b c chanOf).2.2) := by
+  simp [getitemSliceRun, getitemSlice, h]
+
+/-- an existing `Slice` node is never run again by the expression: no exception, both nodes come back -/
+theorem getitemSliceRun_found (H : Key → String) (p : Printer) (f : SliceFn) (st : St) (par : Nat)
+    (owner : Nat) (slabel : String) (a b c : Operand) (chanOf : Nat → Nat) (ready sN bN cN : Bool) (n : Nat)
+    (hwf : WF st)
+    (h : (st.children par).lookup (label H p ⟨owner, slabel, "Slice", [a, b, c]⟩) = some n) :
+    (getitemSliceRun H p f st (some par) owner slabel a b c chanOf ready sN bN cN).2.2 =
+      some (getitemSlice H p st (some par) owner slabel a b c chanOf).2.2 := by
+  have hlt : n < st.next := (hwf par).2.2 _ (lookup_mem _ _ _ h)
+  have hne : (n == st.next) = false := by simp; omega
+  simp [getitemSliceRun, getitemSlice, inject_found H p st par _ n h, hne]
+
+theorem sliceRaises_python (ready sN bN cN : Bool) : sliceRaises .python ready sN bN cN = false := by
+  simp [sliceRaises, sliceNode, Except.isOk, Except.toBool]
+
+/-- the strict node raises exactly on the open-ended forms `x[a:]`, `x[:b:c]`, `x[::c]`, `x[:]` -/
+theorem sliceRaises_strict (ready sN bN cN : Bool) :
+    sliceRaises .strict ready sN bN cN = (ready && (bN || (sN && !cN))) := by
+  cases ready <;> cases sN <;> cases bN <;> cases cN <;> rfl
+
 end PwVerif.Inject
